@@ -49,11 +49,30 @@ def gen_edge(rng):
     case["dims"] = [rng.choice([10, 100, 1000])]
     case["lo"], case["hi"], case["width"] = ["0"], ["1"], archlib.q(F(1, case["dims"][0]))
     case.update({"dtype": "f32", "layout": rng.choice(["", "s", "o"]), "sol_dim": 1, "off": "0"})
+    import numpy as np
+    if rng.random() < 0.6:
+        # a range whose lower bound is not representable: `measures - lower_bounds` rounds differently in float32
+        # and float64, so the cell of a float32 value a few ulps from an edge depends on how the query is typed
+        lo, hi = rng.choice([(-1.3, 2.7), (0.1, 0.9), (-0.7, 0.3), (1e-3, 7.001)])
+        lo, hi = float(np.float32(lo)), float(np.float32(hi))
+        case["lo"], case["hi"] = [archlib.q(F(lo))], [archlib.q(F(hi))]
+        case["width"] = archlib.q((F(hi) - F(lo)) / case["dims"][0])
+    lo_f, hi_f = float(F(case["lo"][0])), float(F(case["hi"][0]))
+    case["rtol"] = archlib.q(F(1, 2**19) * max(1, abs(F(lo_f)), abs(F(hi_f))))   # ~ 32 float32 ulps of the range
     ops = []
     tok = 0
     for _ in range(rng.randint(2, 8)):
         tok += 1
-        edge = F(rng.randrange(1, case["dims"][0]), case["dims"][0])
+        k = rng.randrange(1, case["dims"][0])
+        if rng.random() < 0.6:
+            # float32 values 0..3 ulps around the edge
+            v = np.float32(lo_f + k * (hi_f - lo_f) / case["dims"][0])
+            for _ in range(rng.randint(0, 3)):
+                v = np.nextafter(v, np.float32(rng.choice([-10.0, 10.0])), dtype=np.float32)
+            row = [tok, archlib.q(F(rng.randint(-4, 4))), [archlib.q(F(float(v)))]]
+            ops.append({"op": "add", "rows": [row]} if rng.random() < 0.5 else {"op": "add1", "row": row})
+            continue
+        edge = F(lo_f) + F(k) * (F(hi_f) - F(lo_f)) / case["dims"][0]
         m = F(float(edge)) + rng.choice([-1, 1]) * F(1, 2**rng.choice([26, 28, 30, 33]))
         row = [tok, archlib.q(F(rng.randint(-4, 4))), [archlib.q(m)]]
         ops.append({"op": "add", "rows": [row]} if rng.random() < 0.5 else {"op": "add1", "row": row})
